@@ -47,7 +47,7 @@ saltstr (char *dst, int n, const char *alpha, int phase)
 static void
 mksets (void)
 {
-  char s[128];
+  char s[160];
   /* md5crypt: every salt length */
   for (int l = 0; l <= 9; l++)
     {
@@ -179,6 +179,34 @@ mksets (void)
               addset (M_SCRYPT, nl == 4 && r == 0 && p == 1 && k == 1, "$7$%c%s%s%s", A64[nl], rf, pf, s);
             }
         }
+  /* salt-length sweeps at the cheapest cost: every length of the range each method accepts (and just beyond) */
+  for (int l = 1; l <= 66; l++)
+    {
+      saltstr (s, l, A64, l + 5);
+      addset (M_SHA1, 0, "$sha1$20$%s$", s);
+    }
+  for (int l = 0; l <= 40; l += (l < 20 ? 1 : 5))
+    {
+      saltstr (s, l, A64, l + 9);
+      addset (M_SUNMD5, 0, "$md5$%s$", s);
+    }
+  for (int l = 0; l <= 130; l++)
+    {
+      saltstr (s, l, A64, l + 2);
+      addset (M_SCRYPT, 0, "$7$2/..../....%s", s);
+    }
+  for (int w = 0; w < 2; w++)
+    for (int l = 0; l <= 86; l++)
+      {
+        if (l % 4 == 1)
+          continue;
+        saltstr (s, l, A64, l + 4);
+        if (l % 4 == 2)
+          s[l - 1] = A64[(strchr (A64, s[l - 1]) - A64) & 3];
+        if (l % 4 == 3)
+          s[l - 1] = A64[(strchr (A64, s[l - 1]) - A64) & 15];
+        addset (w ? M_GOST : M_YESCRYPT, 0, "%sj/.$%s", w ? "$gy$" : "$y$", s);
+      }
 }
 
 /* phrases */
